@@ -122,44 +122,80 @@ func run(c Case) (res ev.Result) {
 		res.Violation = fmt.Sprintf("time division changed: %v (%04X), source %04X", dst.TimeFormat, d, c.Division)
 		return
 	}
-	// expected tracks: meta track, then one per used channel ascending
-	want := [][]absMsg{metaWant}
-	names := []string{"track 0 (non-channel messages)"}
-	for ch := 0; ch < 16; ch++ {
-		if len(chWant[ch]) > 0 {
-			want = append(want, chWant[ch])
-			names = append(names, fmt.Sprintf("track for channel %d", ch))
-		}
-	}
-	if len(dst.Tracks) != len(want) {
-		res.Violation = fmt.Sprintf("result has %d tracks, want %d (one for non-channel messages + %d used channels)", len(dst.Tracks), len(want), len(want)-1)
+	// The statement fixes: everything that is not a channel message on the first track, every
+	// channel's messages on one track of their own, absolute ticks and relative order kept,
+	// every track terminated by exactly one end-of-track. It does not fix the number or order of
+	// the channel tracks (empty ones may exist) nor where a channel track's end-of-track sits.
+	if len(dst.Tracks) == 0 {
+		res.Violation = "result has no tracks"
 		return
 	}
-	for i, w := range want {
-		// expected: messages with their absolute ticks in source order, then exactly one end-of-track
-		if len(w) == 0 || !bytes.Equal(w[len(w)-1].msg, eot) {
-			last := int64(0)
-			if len(w) > 0 {
-				last = w[len(w)-1].abs
-			}
-			w = append(append([]absMsg{}, w...), absMsg{last, eot})
+	compare := func(name string, got smf.Track, w []absMsg) string {
+		eotFixed := len(w) > 0 && bytes.Equal(w[len(w)-1].msg, eot)
+		var wantEOT int64
+		if eotFixed {
+			wantEOT = w[len(w)-1].abs
+			w = w[:len(w)-1]
+		}
+		if len(got) == 0 || !bytes.Equal(got[len(got)-1].Message, eot) {
+			return fmt.Sprintf("%s is not terminated by an end-of-track event", name)
 		}
 		var gabs int64
-		got := dst.Tracks[i]
-		for j := 0; j < len(got) || j < len(w); j++ {
-			if j >= len(got) {
-				res.Violation = fmt.Sprintf("%s: message %d (% X at tick %d) is lost; track has %d events, want %d", names[i], j, w[j].msg, w[j].abs, len(got), len(w))
-				return
+		for j := 0; j < len(got)-1 || j < len(w); j++ {
+			if j >= len(got)-1 {
+				return fmt.Sprintf("%s: message %d (% X at tick %d) is lost; track has %d messages, want %d", name, j, w[j].msg, w[j].abs, len(got)-1, len(w))
 			}
 			gabs += int64(got[j].Delta)
 			if j >= len(w) {
-				res.Violation = fmt.Sprintf("%s: unexpected extra event %d (% X at tick %d)", names[i], j, []byte(got[j].Message), gabs)
-				return
+				return fmt.Sprintf("%s: unexpected extra event %d (% X at tick %d)", name, j, []byte(got[j].Message), gabs)
 			}
 			if gabs != w[j].abs || !bytes.Equal(got[j].Message, w[j].msg) {
-				res.Violation = fmt.Sprintf("%s event %d: got % X at tick %d, want % X at tick %d", names[i], j, []byte(got[j].Message), gabs, w[j].msg, w[j].abs)
+				return fmt.Sprintf("%s event %d: got % X at tick %d, want % X at tick %d", name, j, []byte(got[j].Message), gabs, w[j].msg, w[j].abs)
+			}
+		}
+		gabs += int64(got[len(got)-1].Delta)
+		if eotFixed && gabs != wantEOT {
+			return fmt.Sprintf("%s: end-of-track at tick %d, the source's end-of-track is at tick %d", name, gabs, wantEOT)
+		}
+		return ""
+	}
+	if v := compare("track 0 (non-channel messages)", dst.Tracks[0], metaWant); v != "" {
+		res.Violation = v
+		return
+	}
+	seen := map[int]bool{}
+	for i := 1; i < len(dst.Tracks); i++ {
+		got := dst.Tracks[i]
+		ch := -1
+		for _, e := range got {
+			if c, ok := channelOf(e.Message); ok {
+				ch = c
+				break
+			}
+		}
+		name := fmt.Sprintf("track %d", i)
+		if ch < 0 {
+			// a track without channel messages: must be empty apart from its end-of-track
+			if v := compare(name+" (no channel messages)", got, nil); v != "" {
+				res.Violation = v
 				return
 			}
+			continue
+		}
+		if seen[ch] {
+			res.Violation = fmt.Sprintf("channel %d is spread over more than one track", ch)
+			return
+		}
+		seen[ch] = true
+		if v := compare(fmt.Sprintf("%s (channel %d)", name, ch), got, chWant[ch]); v != "" {
+			res.Violation = v
+			return
+		}
+	}
+	for ch := 0; ch < 16; ch++ {
+		if len(chWant[ch]) > 0 && !seen[ch] {
+			res.Violation = fmt.Sprintf("the %d messages of channel %d are on no track of their own", len(chWant[ch]), ch)
+			return
 		}
 	}
 	return
